@@ -35,8 +35,8 @@ def run(chk, replay=None):
             chk.nontrivial(("ma", e["run"], e["f"]))
         elif e["e"] == "Adapt":
             chk.nontrivial(("a", e["run"], e["it"], e["f"]))
-    chk.sample_each(rows, ("VLat", "McLat", "Adapt", "McAdapt"))
-    ok, matched, res = chk.validate("Trace_C01", trace, need_actions=("VLat", "McLat", "Adapt", "McAdapt"), timeout=1200)
+    chk.sample_each(rows, ("VLat", "McLat", "Adapt", "McAdapt", "McWeightEps"))
+    ok, matched, res = chk.validate("Trace_C01", trace, need_actions=("VLat", "McLat", "Adapt", "McAdapt", "McWeightEps"), timeout=1200)
     if not ok:
         bad = rows[matched] if matched < len(rows) else None
         chk.violation("C01:measure", trace, "event %d rejected by Trace_C01: %s" % (matched + 1, str(bad)[:500]))
